@@ -809,7 +809,6 @@ func uncleanStructPrefixes(t *testing.T, r *evid.Run) {
 	}
 }
 
-
 // failKind: what a failing request of case idx fails with: a transport-like error, or one of the API's own
 // error classes (a policy that has not reached the server yet answers 403; a replica that lags answers 404):
 // all of them are failures to be retried while the caller's context lives.
